@@ -699,11 +699,28 @@ func (v Value) convert(t Type) (res Value) {
 			return String(string(rune(v.num)))
 		}
 		data := v.data()
+		if st, ok := v.value.(*sliceT); ok && st.valueType == TypeInt32 { // a slice of runes
+			r := make([]rune, len(data))
+			for k, v := range data {
+				r[k] = rune(v.num)
+			}
+			return String(string(r))
+		}
 		b := make([]byte, len(data))
 		for k, v := range data {
 			b[k] = byte(v.num)
 		}
 		return String(string(b))
+	case sliceType(TypeInt32):
+		if v.t.base() == TypeSlice {
+			return v
+		}
+		data := []rune(v.String())
+		s := make([]Value, len(data))
+		for k, v := range data {
+			s[k] = Int32(v)
+		}
+		return newSlice(TypeInt32, s)
 	case TypeSlice:
 		if v.t.base() == TypeSlice {
 			return v
